@@ -444,6 +444,132 @@ def work_stopcont(shard):
 
 
 # ---------------------------------------------------------------------------------------
+# the whole dialogue driven by Session.interact(): the commands are typed ahead (they wait in the keyboard
+# buffer, which is part of the suspended state), the suspension hits every boundary of the dialogue - also
+# those where the interpreter executes the typed direct line and still owes the closing prompt
+
+INTERACTIVE_PROGRAMS = {
+    'end': [b'10 A%=1:PRINT "one"', b'20 FOR I%=1 TO 2:PRINT I%;:NEXT', b'30 END'],
+    'fall-off': [b'10 PRINT "x";', b'20 N%=N%+1'],
+    'stop': [b'10 PRINT "s"', b'20 STOP', b'30 PRINT "t"'],
+    'error': [b'10 PRINT "e"', b'20 ERROR 5'],
+}
+INTERACTIVE_TYPED = [(u'RUN', u'SYSTEM'), (u'GOTO 20', u'SYSTEM'), (u'RUN 20', u'SYSTEM'), (u'X=1:RUN', u'SYSTEM')]
+
+
+class _ModeInputs(H.ScriptedInputs):
+    """Scripted input queue that notes at every poll whether a program is running."""
+
+    def get(self, block=False, timeout=None):
+        try:
+            return H.ScriptedInputs.get(self, block, timeout)
+        except Exception:
+            self.modes.append(bool(self.impl.interpreter.run_mode))
+            raise
+
+
+def _interact(s, sched):
+    """Drive the session through interact() with a fresh scripted input queue -> (how it ended, exception or None)."""
+    inp = _ModeInputs(sched, 600, 'raise')
+    inp.modes = []
+    inp.impl = s._impl
+    s._impl.queues.inputs = inp
+    try:
+        s.interact()
+    except H.Horizon:
+        return 'horizon', None
+    except BaseException as e:
+        from pcbasic.basic.base import error
+        if isinstance(e, error.Exit):
+            return 'exit', None
+        if isinstance(e, Exception) and from_pcbasic(e):
+            return 'host-exception', e
+        raise
+    return 'returned', None
+
+
+def _interactive_final(s, mount):
+    chars = b'\n'.join(b''.join(row).rstrip() for row in s.get_chars())
+    vs = {v: s.get_variable(v) for v in ('A%', 'I%', 'N%')}
+    modes = list(s._impl.queues.inputs.modes)
+    s.close()
+    return {'screen': chars, 'vars': vs}, modes
+
+
+def _interactive_run(lines, typed, base, k):
+    """The dialogue with a QUIT at poll k (None: uninterrupted) -> (final state, polls) or (None, problem)."""
+    mount = os.path.join(base, 'i%s' % k)
+    os.makedirs(mount)
+    try:
+        s = _mk(mount, lines)
+        keys = [H.key_event(c) for cmd in typed for c in cmd + u'\r']
+        if len(keys) > 15:
+            raise CheckError('more keys typed ahead than the keyboard buffer holds')
+        sched = {0: keys}
+        if k is not None:
+            sched.setdefault(k, []).append(signals.Event(signals.QUIT))
+        ended, exc = _interact(s, sched)
+        if ended == 'host-exception':
+            return None, ('host-exception-before-suspend', repr(exc))
+        if k is None:
+            if ended != 'exit':
+                raise CheckError('interactive reference ended with %s' % ended)
+            return _interactive_final(s, mount), None
+        if ended != 'exit':
+            raise CheckError('QUIT at poll %d did not stop the dialogue: %s' % (k, ended))
+        statefile = os.path.join(base, 'istate%d' % k)
+        s.suspend(statefile)
+        s.close()
+        s2 = H.Session.resume(statefile)
+        os.unlink(statefile)
+        s2.start()
+        ended, exc = _interact(s2, {})
+        if ended == 'host-exception':
+            return None, ('host-exception-after-resume', repr(exc))
+        st, _polls = _interactive_final(s2, mount)
+        st['ended'] = ended
+        return (st, None), None
+    finally:
+        shutil.rmtree(mount, ignore_errors=True)
+
+
+def work_interactive(shard):
+    part = Partial()
+    for name, typed in shard:
+        lines = INTERACTIVE_PROGRAMS[name]
+        typed = tuple(typed)
+        with H.Scratch() as base:
+            (ref, modes), _p = _interactive_run(lines, typed, base, None)
+            npolls = len(modes)
+            # statement boundaries of the running program: polls at which the program runs, and the one right after
+            # its last statement (polls at the idle prompt and inside the typed direct line are not in the statement)
+            for k in range(1, npolls):
+                if not (modes[k] or modes[k - 1]):
+                    part.outcome('poll-outside-the-running-program')
+                    continue
+                res, problem = _interactive_run(lines, typed, base, k)
+                part.n += 1
+                part.traces += 1
+                case = {'interactive_program': name, 'typed': list(typed), 'boundary': k}
+                if problem:
+                    part.violation('resume-interactive/%s' % problem[0], '%s %r boundary %d: %s' % (name, typed, k, problem[1]), case)
+                    continue
+                st = res[0]
+                diffs = [f for f in ('screen', 'vars') if st[f] != ref[f]]
+                if st['ended'] != 'exit':
+                    diffs.append('did-not-end')
+                part.classes.add('interactive/%s/%s/%s' % (name, typed[0].split()[0], 'ok' if not diffs else 'diff'))
+                if diffs:
+                    part.violation('resume-interactive/diverges/%s' % '+'.join(diffs),
+                                   'program %s, typed %r, suspended at poll %d of %d and resumed: differs in %s; screen %r, '
+                                   'uninterrupted %r; variables %r, uninterrupted %r' % (
+                                       name, typed, k, npolls - 1, diffs, st['screen'].strip(b'\n'), ref['screen'].strip(b'\n'),
+                                       st['vars'], ref['vars']), case)
+    part.sample({'interactive_program': shard[0][0], 'typed': list(shard[0][1])})
+    return part
+
+
+# ---------------------------------------------------------------------------------------
 # byte alteration
 
 def _make_state_files(base):
@@ -540,6 +666,12 @@ def legs(ctx):
             masks = [0x01, 0x80, 0xff, 0x10]     # the large file: 4 masks per offset
         for lo in range(0, n, step):
             shards.append((which, lo, lo + step, masks))
+    inter = [[(n, t)] for n in sorted(INTERACTIVE_PROGRAMS) for t in INTERACTIVE_TYPED]
+    out.append(Leg('interactive', inter, work_interactive, exhaustive=True,
+                   bound='%d programs x %d typed dialogues (RUN / a direct GOTO into the program / RUN 20 / a statement before RUN, then SYSTEM) '
+                         'driven by Session.interact() with the keys typed ahead: QUIT, suspend and resume at every poll at which the program '
+                         'runs and at the one after its last statement; final screen (prompts included) and variables equal the uninterrupted dialogue' % (
+                             len(INTERACTIVE_PROGRAMS), len(INTERACTIVE_TYPED))))
     out.append(Leg('alter', shards, work_alter, exhaustive=True,
                    bound='3 state files; every offset x %s' % ('3 xor masks' if ctx.quick else
                                                               'all 255 other byte values (2 small files) / 4 masks (large file)')))
@@ -561,6 +693,10 @@ def replay(ctx, leg, case):
         return part
     if leg == 'blocked-input':
         return work_blocked([case['blocked']])
+    if leg == 'interactive':
+        part = work_interactive([(case['interactive_program'], tuple(case['typed']))])
+        part.viol = [v for v in part.viol if v[2].get('boundary') == case['boundary']]
+        return part
     if leg == 'boundaries':
         part = Partial()
         frags = tuple(case['fragments'])
